@@ -189,7 +189,7 @@ theorem insert_regex_cases {ic : Bool} (c : Item ι V) (hc : c.inv ic = true) (h
 
 theorem inv_newLeafItem (p : List Char) (id : ι) (v : V) (ic : Bool) :
     (newLeafItem p id v ic).inv ic = true := by
-  simp [newLeafItem, inv_leaf_iff, LazyRegex.newLeaf, nodupKeys]
+  simp [newLeafItem, inv_leaf_iff, nodupKeys]
 
 @[simp] theorem regex_newLeafItem (p : List Char) (id : ι) (v : V) (ic : Bool) :
     (newLeafItem p id v ic).regex = p := rfl
@@ -227,7 +227,7 @@ theorem inv_insert {ic : Bool} (t : Item ι V) (p : List Char) (id : ι) (v : V)
       have hl := commonPrefix_bpre_left rx.original p
       have hr := commonPrefix_bpre_right rx.original p
       rw [inv_node_iff]
-      refine ⟨rfl, h2, hl.2, by simp, ?_, ?_, ?_⟩
+      refine ⟨newNode_nodeWf _ _, h2, hl.2, by simp, ?_, ?_, ?_⟩
       · intro c hc
         simp only [List.mem_cons, List.not_mem_nil, or_false] at hc
         rcases hc with rfl | rfl
@@ -254,7 +254,7 @@ theorem inv_insert {ic : Bool} (t : Item ι V) (p : List Char) (id : ι) (v : V)
       have hlen : (rx.original.take (commonPrefixCharSize p rx.original)).length
           = commonPrefixCharSize p rx.original := by
         rw [List.length_take]; omega
-      refine ⟨rfl, h2, ?_, by simp, ?_, ?_, ?_⟩
+      refine ⟨newNode_nodeWf _ _, h2, ?_, by simp, ?_, ?_, ?_⟩
       · simpa [LazyRegex.newNode, getPrefix_eq_take] using hb1.2
       · intro c hc
         simp only [List.mem_cons, List.not_mem_nil, or_false] at hc
